@@ -365,6 +365,27 @@ func c20OpsPoint(r *core.Run, x, y doc, tx bool) *core.Violation {
 	if f2.Kind != "ok" || !core.EqualFast(f2.Val, core.Norm(int64(n))) {
 		return mk("filter-disagrees-with-the-truth-rule", "o[?x && !y] | length(@)", fmt.Sprint(n), f2)
 	}
+	// the negation of every comparison is the negation of its (possibly null) outcome under the truth rule
+	for _, op := range []string{"<", "<=", ">", ">=", "==", "!="} {
+		cmp := prepareImplCached("x " + op + " y").run(d)
+		neg := prepareImplCached("!(x " + op + " y)").run(d)
+		fneg := prepareImplCached("o[?!(x " + op + " y)] | length(@)").run(d)
+		r.Add("evaluations", 3)
+		if cmp.Kind != "ok" {
+			continue
+		}
+		want := !ref.Truthy(cmp.Val)
+		if b, ok := boolOf(neg); !ok || b != want {
+			return mk("negated-comparison", "!(x "+op+" y)", fmt.Sprintf("%v (x %s y is %s)", want, op, cmp.Short()), neg)
+		}
+		wn := 0
+		if want {
+			wn = 1
+		}
+		if fneg.Kind != "ok" || !core.EqualFast(fneg.Val, core.Norm(int64(wn))) {
+			return mk("negated-comparison", "o[?!(x "+op+" y)] | length(@)", fmt.Sprint(wn), fneg)
+		}
+	}
 	// the same through literals
 	lit := prepareImpl("`" + x.Text + "` == `" + y.Text + "`")
 	lo := lit.run(nil)
@@ -462,16 +483,29 @@ func c20Floats(r *core.Run) {
 		E[i] = make([]bool, n)
 		for j := range fs {
 			exact := new(big.Rat).SetFloat64(fs[i]).Cmp(new(big.Rat).SetFloat64(fs[j])) == 0
-			for _, carry := range []string{"float64", "float64-vs-decimal-text", "in-arrays"} {
+			for _, carry := range []string{"float64", "float64-vs-decimal-text", "in-arrays", "contains-decimal-text-haystack", "contains-float-haystack", "contains-mixed-haystack"} {
 				var d any
 				xi, yj := any(fs[i]), any(fs[j])
+				text := json.Number(new(big.Rat).SetFloat64(fs[j]).FloatString(80))
 				if carry == "float64-vs-decimal-text" {
-					yj = json.Number(new(big.Rat).SetFloat64(fs[j]).FloatString(80))
+					yj = text
 				}
 				d = map[string]any{"x": xi, "y": yj, "l": []any{"filler", xi, nil}}
 				expr := prepareImplCached(c20Eq.Text)
-				if carry == "in-arrays" {
+				switch carry {
+				case "in-arrays":
 					expr = prepareImplCached("[x, [x]] == [y, [y]]")
+				case "contains-decimal-text-haystack":
+					// a float needle, the haystack holds the other value as exact decimal text only
+					d = map[string]any{"x": xi, "h": []any{"filler", text, nil}}
+					expr = prepareImplCached("contains(h, x)")
+				case "contains-float-haystack":
+					d = map[string]any{"x": json.Number(new(big.Rat).SetFloat64(fs[i]).FloatString(80)), "h": []any{"filler", fs[j], nil}}
+					expr = prepareImplCached("contains(h, x)")
+				case "contains-mixed-haystack":
+					// floats that differ from every value of the alphabet, around the other value as decimal text
+					d = map[string]any{"x": xi, "h": []any{-12345.5, text, float32(-7.25)}}
+					expr = prepareImplCached("contains(h, x)")
 				}
 				o := expr.run(d)
 				r.Add("evaluations", 1)
